@@ -237,7 +237,7 @@ func genC05(c *w1Case, r *simrt.Rng) {
 	c.monitor = true
 	acts := append([]string{"panic", "cc_learning"}, transposeActions...)
 	o := genOpts{nKeys: [2]int{2, 6}, nMaps: [2]int{1, 2}, notePool: []int{0, 1, 60, 126, 127}, offsets: true, actions: acts, exitLen: -1, defaults: true,
-		unmapProb: 0.2, remapProb: 0.3, axes: r.Range(0, 3), axisKinds: []string{"cc", "cc2", "pitch_bend", "key", "key1"}, handlers: 1, edgeNotes: true}
+		unmapProb: 0.2, remapProb: 0.3, axes: r.Range(0, 3), axisKinds: []string{"cc", "cc2", "pitch_bend", "key", "key1"}, handlers: r.Range(1, 2), edgeNotes: true, analogSubs: true}
 	c.d = baseDesc(r, o)
 	shareRanges(c.d)
 	d := c.d
@@ -346,7 +346,7 @@ func genC05(c *w1Case, r *simrt.Rng) {
 			default:
 				v = a.Min + int32(r.Intn(int(a.Max-a.Min)+1))
 			}
-			g.out = append(g.out, model.Event{Kind: "abs", Code: a.Code, Value: v})
+			g.out = append(g.out, model.Event{Kind: "abs", Handler: g.axH[a.Code], Code: a.Code, Value: v})
 		} else {
 			g.steps(1, 5, 4, 2, false)
 		}
